@@ -234,30 +234,6 @@ theorem facetPts_productRows (ts : List ℚ) (dx : Border) (k : Nat) (hk : k < n
     intro row _
     simp [getD_replicate _ _ _ hk]
 
-theorem sum_flatMap {α : Type} (ts : List α) (g : α → List ℚ) :
-    (ts.flatMap g).sum = (ts.map fun t => (g t).sum).sum := by
-  induction ts with
-  | nil => simp
-  | cons t ts ih => simp [List.flatMap_cons, List.sum_append, ih]
-
-theorem length_flatMap_const {α : Type} (ts : List α) (g : α → List ℚ) (n : Nat)
-    (h : ∀ t, (g t).length = n) : (ts.flatMap g).length = ts.length * n := by
-  induction ts with
-  | nil => simp
-  | cons t ts ih => simp [List.flatMap_cons, ih, h, Nat.add_mul, Nat.add_comm]
-
-/-- the mean over blocks of equal length is the mean of the block means -/
-theorem mean_flatMap_const {α : Type} (ts : List α) (g : α → List ℚ) (n : Nat)
-    (h : ∀ t, (g t).length = n) :
-    mean (ts.flatMap g) = mean (ts.map fun t => mean (g t)) := by
-  unfold mean
-  rw [sum_flatMap, length_flatMap_const ts g n h]
-  simp only [List.length_map, h, Nat.cast_mul]
-  have : (ts.map fun t => (g t).sum / (n : ℚ)) = ts.map fun t => (n : ℚ)⁻¹ * (g t).sum := by
-    apply List.map_congr_left; intro t _; rw [div_eq_inv_mul]
-  rw [this, List.sum_map_mul_left, div_eq_mul_inv, div_eq_mul_inv, mul_inv]
-  ring
-
 /-- **on a times × border product batch the facet's term is the mean over the times of the
     single-time terms**: the mean over the `nt × nb` product rows. -/
 theorem facetLoss_product_eq_mean_over_times (val : List ℚ → ℚ) (ts : List ℚ) (dx : Border)
@@ -310,13 +286,6 @@ theorem facetLoss_dup_rows (w : ℚ) (s : FacetSpec) (hasTime : Bool) (uval : Li
   exact mean_append_self _
 
 /-! ### separable networks: the mean over the tensor grid is the mean over the facet's points -/
-
-theorem mean_map_const {α : Type} (l : List α) (c : ℚ) (hl : l ≠ []) : mean (l.map fun _ => c) = c := by
-  have hn : (l.length : ℚ) ≠ 0 := by
-    have : l.length ≠ 0 := by simpa using hl
-    exact_mod_cast this
-  simp only [mean, List.map_const', List.sum_replicate, List.length_replicate, nsmul_eq_mul]
-  field_simp
 
 /-- **a constant coordinate column only contributes multiplicity**: replacing a column all of whose
     entries equal `p` by the single entry `p` leaves the mean over the tensor grid unchanged. -/
